@@ -132,7 +132,7 @@ def extract(repo=None, profile="dev", crates=("mila",), with_deps=False):
         lock.close()
 
 
-def prune(keep=250):
+def prune(keep=700):
     try:
         ds = [os.path.join(CACHE, d) for d in os.listdir(CACHE) if os.path.isdir(os.path.join(CACHE, d))]
         ds.sort(key=lambda d: os.path.getmtime(d), reverse=True)
